@@ -8,6 +8,8 @@ Import ListNotations.
 Local Open Scope string_scope.
 Local Open Scope Z_scope.
 
+Ltac wit := repeat match goal with |- _ /\ _ => split end; vm_compute; reflexivity.
+
 Definition ex_H : row := mkRow "H" [mkF "q" FPos None] [AOne "q"] [] [QOne "q"] [] [] (Some "h") false [] CBGate true.
 Definition ex_RX : row := mkRow "RX" [mkF "q" FPos None; mkF "theta" FPos None; mkF "trainable" FPos (Some (VA (ABool true)))]
   [AOne "q"] [("theta", KF "theta"); ("trainable", KF "trainable")] [QOne "q"] [] ["theta"] (Some "rx") true [1] CBGate true.
@@ -86,7 +88,7 @@ Lemma ex_collapse_dropped : exists c s c',
   ex_collapse_circuit = OK c /\ write ex_rows c = OK s
   /\ read ex_rows ex_bases ex_specials ex_rotation s = OK c'
   /\ length (filter is_M (cqueue c)) = 1%nat /\ length (filter is_M (cqueue c')) = 0%nat.
-Proof. do 3 eexists. repeat split; vm_compute; reflexivity. Qed.
+Proof. do 3 eexists. wit. Qed.
 
 Definition ex_implicit_collapse_circuit : res circuit :=
   g1 <- construct ex_bases ex_M [VA (AInt 0)] [("register_name", VA (AStr "a"))];
@@ -97,7 +99,7 @@ Lemma ex_implicit_collapse_dropped : exists c s c',
   ex_implicit_collapse_circuit = OK c /\ write ex_rows c = OK s
   /\ read ex_rows ex_bases ex_specials ex_rotation s = OK c'
   /\ length (filter is_M (cqueue c)) = 1%nat /\ length (filter is_M (cqueue c')) = 0%nat.
-Proof. do 3 eexists. repeat split; vm_compute; reflexivity. Qed.
+Proof. do 3 eexists. wit. Qed.
 
 Definition ex_iswap_circuit : res circuit :=
   g1 <- construct ex_bases ex_iSWAP [VA (AInt 0); VA (AInt 1)] [];
@@ -106,7 +108,7 @@ Definition ex_iswap_circuit : res circuit :=
 Lemma ex_iswap_rejected : exists c s,
   ex_iswap_circuit = OK c /\ write ex_rows c = OK s
   /\ read ex_rows ex_bases ex_specials ex_rotation s = Err EValueError.
-Proof. do 2 eexists. repeat split; vm_compute; reflexivity. Qed.
+Proof. do 2 eexists. wit. Qed.
 
 Definition ex_dupreg_circuit : res circuit :=
   g1 <- construct ex_bases ex_M [VA (AInt 2); VA (AInt 0)] [("register_name", VA (AStr "register1"))];
@@ -117,7 +119,7 @@ Lemma ex_dupreg_merged : exists c s c',
   ex_dupreg_circuit = OK c /\ write ex_rows c = OK s
   /\ read ex_rows ex_bases ex_specials ex_rotation s = OK c'
   /\ length (cmeas c) = 2%nat /\ length (cmeas c') = 1%nat.
-Proof. do 3 eexists. repeat split; vm_compute; reflexivity. Qed.
+Proof. do 3 eexists. wit. Qed.
 
 (* Circuit.raw / from_dict with a measurement in the X basis: the rotations are inserted twice *)
 Definition ex_basis_circuit : res circuit :=
@@ -128,11 +130,11 @@ Lemma ex_basis_duplicated : exists c c',
   ex_basis_circuit = OK c
   /\ cfrom_dict ex_rows ex_bases ex_rotation (craw ex_required c) = OK c'
   /\ length (cqueue c) = 3%nat /\ length (cqueue c') = 5%nat.
-Proof. do 2 eexists. repeat split; vm_compute; reflexivity. Qed.
+Proof. do 2 eexists. wit. Qed.
 
 (* Gate.raw drops Align's `delay` *)
 Lemma ex_align_delay_lost : exists g g',
   construct ex_bases ex_Align [VA (AInt 1); VA (AInt 3)] [] = OK g
   /\ from_dict ex_rows ex_bases (raw ex_required g) = OK g'
   /\ gparams g = [VA (AInt 3)] /\ gparams g' = [VA (AInt 0)].
-Proof. do 2 eexists. repeat split; vm_compute; reflexivity. Qed.
+Proof. do 2 eexists. wit. Qed.
